@@ -40,7 +40,12 @@ impl EventLog {
 }
 
 fn degenerate(v: &[u8]) -> bool {
-    !v.is_empty() && (v.iter().all(|&b| b == v[0]) || v.windows(2).all(|w| w[1] == w[0].wrapping_add(1)))
+    !v.is_empty()
+        && (v.iter().all(|&b| b == v[0])
+            || v.windows(2).all(|w| w[1] == w[0].wrapping_add(1))
+            // a short random block repeated to fill the field
+            || (v.len() >= 16 && v.len() % 2 == 0 && v[..v.len() / 2] == v[v.len() / 2..])
+            || (v.len() >= 16 && v.len() % 4 == 0 && v.chunks(v.len() / 4).all(|c| c == &v[..v.len() / 4])))
 }
 
 struct Fresh<'a> {
@@ -96,6 +101,19 @@ fn fresh_backend<B: Backend>(opts: &Opts, fr: &mut Fresh) {
     let class = format!("{}.local.nonce", B::NAME);
     for i in 0..n {
         match kl.seal(msg, b"", b"") {
+            Ok(t) => {
+                let (_, body, _) = split_token(&t);
+                fr.observe(&class, base + i as u64, &body[..B::LOCAL_NONCE], &mut prev);
+            }
+            Err(e) => fail(fr.rep, &class, &e),
+        }
+    }
+    // the same for the empty message (v1/v2 derive the embedded nonce from random value and message)
+    let n = shard_share(opts.size(4000, 50_000));
+    let mut prev = None;
+    let class = format!("{}.local.nonce.empty-message", B::NAME);
+    for i in 0..n {
+        match kl.seal(b"", b"", b"") {
             Ok(t) => {
                 let (_, body, _) = split_token(&t);
                 fr.observe(&class, base + i as u64, &body[..B::LOCAL_NONCE], &mut prev);
